@@ -158,6 +158,10 @@ def _rc(idx: ast.AST) -> Optional[str]:
 def run(prog: Program, rep, tier: str) -> None:
     rep.explanation = EXPLANATION
     sc = prog.cls(SC)
+    # every quantity this property speaks about is computed from the user's callback values: the wrapper problems (scaling,
+    # slacks) must hand them on without writing into the objects the callbacks returned (C04 / C11's rule on those constructs)
+    from . import c04 as _c04
+    _c04.callback_results_kept(prog, rep)
     # ---- weights_from_nominal_values ---------------------------------------------------------------
     w = sc.methods["weights_from_nominal_values"]
     ff = facts_for(w)
